@@ -16,7 +16,7 @@ cp $src/demo.py $work/demo.py
 echo "tests: $(grep -c '^FAILED' $work/tests.log) failed; $(tail -1 $work/tests.log)"
 (cd $work && PYTHONPATH=$work/repo PYTHONHASHSEED=0 timeout 600 /venv/bin/python $work/demo.py > $work/demo_mut.log 2>&1); echo "demo on changed tree rc=$?"
 (cd $work && PYTHONPATH=/repo PYTHONHASHSEED=0 timeout 600 /venv/bin/python $work/demo.py > $work/demo_clean.log 2>&1); echo "demo on /repo rc=$?"
-rsync -a --exclude .git --exclude replays --exclude evidence --exclude seeded /verif/ $work/verif/
+rsync -a --exclude .git --exclude replays --exclude evidence --exclude seeded ${VERIF_SRC:-/verif}/ $work/verif/
 mkdir -p $work/verif/replays $work/verif/evidence
 for c in $checks; do
   (cd $work/verif && VERIF_REPO=$work/repo VERIF_SEED=${VERIF_SEED:-1} timeout 3000 ./check $c --tier ${TIER:-quick} > $work/$c.log 2>&1); rc=$?
